@@ -4,7 +4,8 @@
 * `decode_table`   - the outcome class of the real `message_to_item` of each protocol class on a
                      representative message of EVERY shape of the specification table
                      (lean/Aiorpcx/C04/Classify.lean: 1152 object shapes + empty array, array,
-                     non-container; the representative of a kind rotates through its variants);
+                     non-container; three representatives per row, the variant of each kind
+                     rotating, which must agree);
                      `facts_decode_table` states that the table equals `classify`;
 * `encode_table`   - the payloads the real `request_message` / `notification_message` /
                      `response_message` / `batch_message` emit on a grid of argument / id / value
@@ -102,28 +103,32 @@ def shapes():
     return list(itertools.product(JSONRPC_K, METHOD_K, PARAMS_K, ID_K, RES_K, ERR_K))
 
 
-def representatives():
-    """one message per row of the table, in table order; the variant of each kind rotates"""
+def representatives(shift=0):
+    """one message per row of the table, in table order; the variant of each kind rotates (`shift`
+    moves every rotation on, so that different shifts give different representatives)"""
     uses = {}
 
     def pick(member, kind):
         vs = VARIANTS[(member, kind)]
-        n = uses.get((member, kind), 0)
+        n = uses.get((member, kind), shift * 3)
         uses[(member, kind)] = n + 1
         return vs[n % len(vs)]
     out = []
     for n, (j, m, p, i, r, e) in enumerate(shapes()):
         vals = {'jsonrpc': pick('jsonrpc', j), 'method': pick('method', m), 'params': pick('params', p),
                 'id': pick('id', i), 'result': pick('result', r), 'error': pick('error', e)}
-        order = MEMBER_ORDERS[n % len(MEMBER_ORDERS)]
+        order = MEMBER_ORDERS[(n + shift) % len(MEMBER_ORDERS)]
         msg = {k: vals[k] for k in order if vals[k] is not ABSENT}
-        if n % 7 == 3:
+        if (n + shift) % 7 == 3:
             msg['extra'] = n            # an unknown member changes nothing
         out.append(msg)
     out.append([])
     out.append(ARRAYS)                  # every variant is tried; all must agree
     out.append(OTHERS)
     return out
+
+
+N_REPRESENTATIVES = 3
 
 
 # outcome codes (twin of `outCode` in Table.lean)
@@ -166,13 +171,16 @@ def wire(v):
 
 
 def decode_table(mod, codes):
-    reps = representatives()
+    """per class: the outcome code of every row; N_REPRESENTATIVES different representatives of a
+    row are decoded and must agree (otherwise the row reads MIXED, which no specification row is)"""
+    reps = [representatives(k) for k in range(N_REPRESENTATIVES)]
     table = {}
     for pn, cls in classes(mod).items():
         col = []
-        for rep in reps[:-2]:
-            col.append(CRASH if cls is None else decode_outcome(mod, cls, wire(rep), codes))
-        for group in reps[-2:]:
+        for row in range(len(reps[0]) - 2):
+            got = {CRASH if cls is None else decode_outcome(mod, cls, wire(r[row]), codes) for r in reps}
+            col.append(got.pop() if len(got) == 1 else MIXED)
+        for group in reps[0][-2:]:
             got = {CRASH if cls is None else decode_outcome(mod, cls, wire(v), codes) for v in group}
             col.append(got.pop() if len(got) == 1 else MIXED)
         table[pn] = col
